@@ -4,7 +4,7 @@ from __future__ import annotations
 from ..calls import Resolver
 from ..core import Report
 from ..model import Program
-from ..quantity_rules import (check_decimal_helpers, check_gates, check_mixed_arithmetic, check_numeric_memo, check_operators, check_quantity_ctor)
+from ..quantity_rules import (check_decimal_helpers, check_gates, check_mixed_arithmetic, check_numeric_memo, check_extra_operators, check_operators, check_quantity_ctor)
 
 TITLE = "Quantity operations obey dimensional analysis; incommensurables are rejected"
 
@@ -23,7 +23,11 @@ def run(rep: Report) -> None:
              "return NotImplemented before any magnitude comparison or conversion; Measurement.__eq__ returns False", floor=5)
     rep.rule("R03.4", "every return of a Quantity operator is a Quantity or NotImplemented, never a number", floor=14)
     rep.rule("R03.5", "addition and subtraction return the left operand's unit and convert the right operand itself first", floor=6)
+    rep.rule("R03.8", "every further arithmetic hook of Quantity follows its family: an alias only for the reflected form of a "
+             "commutative operator; additive hooks (%, in-place +/-) gate the right operand itself and keep the left dimension; "
+             "quotient / product hooks carry the quotient / product dimension", floor=1)
     n = check_operators(rep, prog, resolver, "R03.1", "R03.4", "R03.5", rid_dim="R03.1d")
+    check_extra_operators(rep, prog, resolver, "R03.8")
     check_decimal_helpers(rep, prog, "R03.2")
     check_mixed_arithmetic(rep, prog, resolver, "R03.2")
     check_gates(rep, prog, "R03.3")
